@@ -6066,6 +6066,11 @@ class SSHServerConnection(SSHConnection):
                                  'resolved %s', client_host, resolved_host)
 
         if self._known_client_hosts:
+            # Each attempt is judged on the keys trusted for the host it
+            # resolves to, not on keys looked up for an earlier attempt
+            self._trusted_host_keys = set()
+            self._trusted_host_key_algs = []
+
             self._match_known_hosts(self._known_client_hosts, resolved_host,
                                     self._peer_addr, None)
 
